@@ -8,7 +8,7 @@ import z3
 
 from .common import PREFIX, And, Case, Or, SymBool, call, close, exact_eq
 from .names_common import (PREFIX_SYMS, oracle_var, unit_ok as _unit_ok, PREFIX_WORD, denotation, dimvec, distinct_denotations, expected, label_of, readings, sym_registry,
-                           tables)
+                           tables)  # noqa: F401
 
 LEVEL = "other"
 MANIFEST = dict(
@@ -25,7 +25,14 @@ MANIFEST = dict(
           "'a' for Pa/ha, 'x' for Mx, 'ol' for mol, 'ascal' for Pascal ...), prefixable and not, over 9 histories of registry calls "
           "(constructed with the row, add, define_unit, use-then-add, add-remove, re-add with the other flag, add-modify, "
           "copy-then-remove; symbolic and plain default table) run inside one path: colliding spelling == table reading, "
-          "prefix x added unit == prefix * s_t, non-prefixable / removed unit rejected, for all scales."),
+          "prefix x added unit == prefix * s_t, non-prefixable / removed unit rejected, for all scales. "
+          "(d) the same with a row NAMED like a documented spelling (every listed alias, title-case variant, prefix ++ short alias, "
+          "prefix-word form, symbol form u/MICRO SIGN/GREEK MU/k/... ++ symbol): the spelling, every other spelling of the unit it "
+          "denotes and the add_symbols namespace keep the documented reading (symbol forms: all spellings agree on one unit), "
+          "by string and by namespace, one row at a time through the histories and all rows of a case in one registry. "
+          "(e) edits of a table symbol in a custom registry after every spelling of it was used once (modify, re-add, remove, "
+          "remove-add, re-add with the other prefixable flag, copy-then-modify both ways, modify twice; symbolic and plain table): "
+          "every spelling == prefix * NEW scale by string and by namespace, bound to the registry asked, rejected after removal."),
     design="DESIGN.md section 4 C14",
     technique="SMT string queries (z3 seq) with all-SAT + completeness; symbolic execution of the real lookup over z3 real scales; replay")
 EXPLANATION = (
@@ -45,7 +52,17 @@ EXPLANATION = (
     "each of 9 histories of real registry calls executed in one path - and the real resolution of the colliding spellings, of "
     "their other spellings (aliases, k/m/da forms), of prefix ++ t and of t itself is compared with an independent reader "
     "(documented reading first; prefix ++ t only for a prefixable row; nothing after removal): base_value == s_canonical * prefix "
-    "resp. s_t * prefix is decided by z3 for all 145+2 scales, and add_symbols(ns, registry) must hand out the same units."
+    "resp. s_t * prefix is decided by z3 for all 145+2 scales, and add_symbols(ns, registry) must hand out the same units. "
+    "Two further registry axes (custom/named-*, edit/*). The NAME of the added row: every documented spelling that is no table symbol "
+    "is used as the name of a user row (a user's 'au', 'um', 'parsec', 'Kilometer', 'ml'); the independent reader says the spelling, "
+    "every other spelling of the unit it denotes, the documented spellings prefix ++ t and the namespace entry keep the documented "
+    "reading; for a row named like a symbol form (prefix symbol ++ prefixable table symbol, a re-definition of that prefixed unit whose "
+    "value is C12's matter) the obligation is that all spellings of that prefixed unit, by string and by namespace, denote ONE unit "
+    "(all documented or all the user's row). The HISTORY of lookups before an edit of a table symbol: the registry answers repeated "
+    "unit strings from a cache keyed by the typed string, so every spelling of a table symbol (aliases, title-case variants, prefixed "
+    "symbol / short-alias / word / title-word forms) is resolved once, then the symbol is modified / re-added / removed / re-added "
+    "with the other prefixable flag / edited in a copy, and every spelling must equal prefix * the NEW symbolic scale (z3, for all "
+    "scales), belong to the registry it was asked from, be rejected after removal, and agree with the add_symbols namespace."
 )
 BOUNDS = {
     "quick": "all 3872 exposed names x {string, attribute (unit_symbols + top level), add_symbols namespace of a custom registry}, 145 symbolic "
@@ -59,18 +76,35 @@ BOUNDS = {
              "the prefixes k, m, da, P and t itself; every tail of a listed alias / title-case alias "
              "or symbol (121) and a VERIF_SEED sample of 24 tails each of prefixed-symbol, prefix-word and title prefix-word "
              "spellings x both flags x {built, add, plain-define} with the colliding spellings and the prefixes k, m, da, P; "
-             "tails are python identifiers that are no table symbol; 145 table scales + 2 scales of the added row symbolic",
+             "tails are python identifiers that are no table symbol; 145 table scales + 2 scales of the added row symbolic; "
+             "rows named like a documented spelling: all 180 listed aliases, all 28 title-case symbols, a VERIF_SEED sample of 40 "
+             "title-case aliases, 24+24 prefix ++ short alias (24 micro u/MICRO SIGN/GREEK MU forms, 24 others), 24+24 prefix ++ symbol, "
+             "24 prefix-word and 24 title prefix-word forms x both flags x {built, add, use-add} + one joint registry per case (6 rows at "
+             "once, both flags) with the add_symbols namespace; strings per row: the row name, all other spellings of its unit, the "
+             "documented spellings prefix ++ name, k/m/da/P ++ name; "
+             "edits of a table symbol: all 143 symbols with a symbolic scale x {modify (+ namespace), readd, remove, flip, copy-modify, "
+             "plain-modify}, each after one use of every spelling; spellings: all aliases / title-case variants and the prefixed forms "
+             "(symbol, short alias, word, title word) for k, m, da and the three micro spellings (1222 spellings in all)",
     "thorough": "same, plus prefix word x every non-prefixable alias and the title-case spellings in the rejection sweep (~25000 strings); "
                 "registry configurations: all 9 histories for every family ('add' with the full battery too), samples of 160 prefix-word / "
-                "title prefix-word tails, all 59 prefixed-symbol tails, all-SAT re-enumeration for the alias kinds as well",
+                "title prefix-word tails, all 59 prefixed-symbol tails, all-SAT re-enumeration for the alias kinds as well; "
+                "rows named like a documented spelling: all 180 aliases, 127 title-case aliases, 28 title-case symbols, 198 prefix ++ "
+                "short alias with all 9 histories; all 132 micro ++ symbol forms and VERIF_SEED samples of 200 other prefix ++ symbol, 240 "
+                "prefix-word and 240 title prefix-word forms (of 835 / 1120 / 1040: cut for wall time, one mechanism each) with {built, add, "
+                "use-add, add-remove}; joint registries of 4 resp. 8 rows; edits of a table symbol: all 9 histories (+ remove-add, modify-twice, "
+                "plain-readd), the spellings with ALL prefixes (3798 spellings)",
 }
 OUTSIDE = ("strings that are no documented spelling and no prefix+unit split (user-defined names: C12/C13); malformed expressions (C20); "
            "LaTeX representation; the alias list itself is the documentation (taken as given); top-level names shadowed by a physical "
-           "constant are C15(c); registries: one added row at a time (no two user rows that collide with each other), a row "
-           "whose name is a table symbol (re-definition: C12), the reading of an added row whose own name is a documented "
-           "spelling ('amol': the user re-defines it, C12), 'd' ++ a user unit starting with 'a' (unyt tries 'da' first and splits "
-           "once), tails that are no python identifier or are keywords ('in', 'as'), define_unit on the process-wide default "
-           "registry (C13), registries restored from JSON / pickle (C11)")
+           "constant are C15(c); registries: one added row at a time in the histories (the joint registries hold up to 6 rows "
+           "with different denotations; two user rows that collide with each other are outside), WHICH value a re-defined table "
+           "symbol or symbol form ('amol', 'km') takes (C12: here only that all its spellings agree resp. follow the new scale), "
+           "prefix ++ t for a prefixable row t whose own name keeps a documented reading ('kau' next to a user's 'au': a user-defined "
+           "name), spellings of a removed table symbol that have a second reading, 'd' ++ a user unit starting with 'a' (unyt tries "
+           "'da' first and splits once), row names / tails that are no python identifier or are keywords ('in', 'as', the 66 names "
+           "with a degree sign), dependent table rows after an edit (modify('m') leaves 'inch' alone: C12/C13), compound expressions "
+           "cached before an edit (C13), define_unit on the process-wide default registry (C13), registries restored from JSON / "
+           "pickle (C11)")
 CONFORM = {"quick": 8, "thorough": 16}
 CHUNK = 100
 
@@ -449,20 +483,86 @@ def ext_reading(name, T, t, flag, present=True):
     and, if the row is prefixable, for prefix symbol ++ t; ('skip', None) where C14 makes no statement; None = no reading"""
     doc = _expected(name, T)
     if doc is not None:
-        # a user who names a row like a documented prefixed spelling ("amol") re-defines that spelling on purpose: C12
-        return ("skip", None) if (present and name == t) else ("doc", doc)
+        # a user who names a row like a SYMBOL FORM (prefix symbol ++ prefixable table symbol: "amol", "km") re-defines that
+        # prefixed unit on purpose (which value it then has is C12's matter); what C14 demands of its spellings is that they
+        # agree with each other: _consistency.  A row named like any other documented spelling (listed alias, word form,
+        # title-case variant, prefix ++ short alias: "au", "parsec", "Kilometer", "ml") leaves the documented reading of that
+        # spelling, and of every other spelling, untouched.
+        if present and _symbol_form(t, T) and doc == _expected(t, T):
+            return ("skip", None)
+        return ("doc", doc)
     if keyword.iskeyword(name) or name in _PARSER_GLOBALS or not name.isidentifier():
         return ("skip", None)
     if not present:
         return None
+    t_doc = _expected(t, T) is not None and not _symbol_form(t, T)
     if name == t:
         return ("user", 1.0)
     for p in PREFIX_SYMS:                       # 'da' is listed before 'd': deca is tried first
         if name == p + t:
             if name.startswith("da") and p != "da":
                 return ("skip", None)           # unyt splits once and tries 'da' first: 'd' ++ 'a...' of a user unit is C12's matter
+            if t_doc:
+                # t itself keeps its documented reading; prefix ++ t is no documented spelling: a non-prefixable row must
+                # still refuse it, for a prefixable row the string is a user-defined name (C12/C13)
+                return ("skip", None) if flag else None
             return ("user", PREFIX[p]) if flag else None
     return None
+
+
+def _symbol_form(t, T):
+    """t is a table symbol or prefix symbol ++ prefixable table symbol (any of the spellings of a prefix symbol)"""
+    k = ("sf", t)
+    if k not in _MEMO:
+        _MEMO[k] = t in T.rows or any(t.startswith(p) and t[len(p):] in T.prefixable for p in PREFIX_SYMS)
+    return _MEMO[k]
+
+
+MICRO = ("u", "\u00b5", "\u03bc")
+
+
+def _consistency(ctx, cfg, reg, t, st, flag, strings, step, udims, ns=None):
+    """the row is named like a symbol form (prefix symbol ++ prefixable table symbol): every spelling of that prefixed unit
+    in `strings` must denote ONE unit - all of them the documented one or all of them the user's row.  Two obligations:
+    (A) the symbol forms among themselves (for micro: u / MICRO SIGN / GREEK MU), (B) the alias and word forms together with
+    the symbol forms.  With ns: the same for the units add_symbols hands out, together with the strings."""
+    unyt = ctx.mods["unyt"]
+    Unit = unyt.Unit
+    T = cfg.T
+    doc = _expected(t, T)
+    fl = "prefixable" if flag else "non-prefixable"
+    group = [n for n in strings if _expected(n, T) == doc]
+    if t not in group:
+        group.append(t)
+    A = [n for n in group if _symbol_form(n, T)]
+    B = [n for n in group if not _symbol_form(n, T)]
+    E = cfg.doc_value("grp:" + t, doc)
+    got = {}
+
+    def verdicts(names):
+        d, u = [], []
+        for n in names:
+            objs = []
+            r = call(Unit, n, registry=reg)
+            got[n] = str(r[1])[:40] if r[0] == "ok" else type(r[1]).__name__
+            objs.append(r[1] if r[0] == "ok" else None)
+            if ns is not None and n in vars(unyt.unit_symbols):
+                objs.append(ns.get(n))
+            for o in objs:
+                if o is None:
+                    d.append(False), u.append(False)
+                else:
+                    d.append(_unit_ok(ctx, o, E, T, doc, check_offset=False))
+                    u.append(And(close(o.base_value, st), dimvec(o.dimensions) == dimvec(udims)))
+        return d, u
+    cls = "micro" if t[0] in MICRO else "other"
+    route = "string+namespace" if ns is not None else "string"
+    dA, uA = verdicts(A)
+    ctx.require(f"{step}/{fl}/{route}/symbol forms of a re-defined prefixed unit agree/{cls}", Or(And(*dA), And(*uA)), row=t, forms=A, got=dict(got))
+    if B:
+        dB, uB = verdicts(B)
+        ctx.require(f"{step}/{fl}/{route}/alias and word forms follow the symbol form of a re-defined prefixed unit/{cls}",
+                    Or(And(*(dA + dB)), And(*(uA + uB))), row=t, forms=A + B, got=dict(got))
 
 
 class _Cfg:
@@ -504,13 +604,15 @@ def _battery(ctx, cfg, reg, t, st, flag, present, strings, step, udims):
             ctx.require(f"{step}/{fl}/{what}", ok, string=name, tail=t, got=got)
         elif rd[0] == "doc":
             E = cfg.doc_value(name, rd[1])
-            ok = r[0] == "ok" and _unit_ok(ctx, r[1], E, T, rd[1])
+            ok = r[0] == "ok" and And(_unit_ok(ctx, r[1], E, T, rd[1]), r[1].registry is reg)
             ctx.require(f"{step}/{fl}/documented name keeps its reading/{_label_of(name, T)}", ok, string=name, tail=t,
                         expected=f"{rd[1][0]}*{rd[1][1]}", got=got)
         else:
-            ok = r[0] == "ok" and And(close(r[1].base_value, st * rd[1]), dimvec(r[1].dimensions) == dimvec(udims))
+            ok = r[0] == "ok" and And(close(r[1].base_value, st * rd[1]), dimvec(r[1].dimensions) == dimvec(udims), r[1].registry is reg)
             what = "added unit itself" if name == t else "prefix x added unit"
             ctx.require(f"{step}/{fl}/{what}", ok, string=name, tail=t, prefix=rd[1], got=got)
+    if present and _symbol_form(t, T) and _expected(t, T) is not None:
+        _consistency(ctx, cfg, reg, t, st, flag, strings, step, udims)
 
 
 def _strings_for(T, t, colliders, level, names_by_sym):
@@ -538,7 +640,7 @@ def _names_by_sym(mods):
     return _DEP
 
 
-def run_history(ctx, hist, t, flag, colliders, level, names_by_sym, namespace=False):
+def run_history(ctx, hist, t, flag, colliders, level, names_by_sym, namespace=False, extra=()):
     """one history of registry calls on a fresh registry, with the battery after (and between) the steps"""
     unyt = ctx.mods["unyt"]
     Unit = unyt.Unit
@@ -550,6 +652,8 @@ def run_history(ctx, hist, t, flag, colliders, level, names_by_sym, namespace=Fa
         st = float(st)
     strings = _strings_for(T, t, colliders, level, names_by_sym)
     core = _strings_for(T, t, colliders, "core", names_by_sym)
+    strings += [n for n in extra if n not in strings]
+    core += [n for n in extra if n not in core]
     tex = r"\rm{" + t.replace("_", r"\ ") + "}"
     plain = hist.startswith("plain")
     if hist == "built":
@@ -669,6 +773,296 @@ def custom_layout(tier):
     return out
 
 
+# ---- rows NAMED like a documented spelling -------------------------------------------------------------------------------
+# The same axis from the other side: the added row's own name t is a documented spelling (a listed alias "au", a title-case
+# variant "Parsec", prefix ++ short alias "ml", a prefix-word form "kilometer", a symbol form "um"/"km").  The strings walked
+# for each t: t itself, every other spelling of the unit t denotes in the documentation (all prefix spellings), the
+# documented spellings that split as prefix ++ t, and k/m/da/P ++ t.
+
+NAMED_KINDS = ("alias", "title-alias", "title-symbol", "psym-short", "psym-sym", "pword", "title-pword")
+NAMED_SAMPLED = {"title-alias": (40, None), "psym-short": (24, None), "psym-sym": (24, 200), "pword": (24, 240),
+                 "title-pword": (24, 240)}   # sample size (quick, thorough); None = all; psym-*: so many micro forms + so many others
+NAMED_HISTS = {"quick": ("built", "add", "use-add"), "thorough": HISTORIES}
+NAMED_HISTS_GENERATED = ("built", "add", "use-add", "add-remove")      # thorough, the three large generated families
+NAMED_GENERATED = ("psym-sym", "pword", "title-pword")
+_NAMED = {}
+
+
+def _kind_of(name, T):
+    rs = readings(name, T)
+    if not rs:
+        return None
+    k = rs[0][0]
+    if k == "psym":
+        k = "psym-sym" if rs[0][3] in T.rows else "psym-short"
+    return k
+
+
+def _by_denotation(mods):
+    """documented identifier spellings per (prefix value, canonical symbol)"""
+    if "den" not in _NAMED:
+        T = tables()
+        d = {}
+        for n in _all_names(mods):
+            e = expected(n, T)
+            if e is not None and n.isidentifier() and n != "_":
+                d.setdefault(e, []).append(n)
+        _NAMED["den"] = d
+    return _NAMED["den"]
+
+
+def named_layout(tier, mods):
+    """[(family, [(t, colliders, extra)], histories)]: every listed alias, title-case alias and title-case symbol; every
+    micro spelling (u / MICRO SIGN / GREEK MU ++ symbol or short alias); a VERIF_SEED sample (quick) resp. all (thorough) of
+    the other generated spellings"""
+    key = ("layout", tier)
+    if key in _NAMED:
+        return _NAMED[key]
+    T = tables()
+    seed = int(os.environ.get("VERIF_SEED", "0") or 0)
+    rnd = random.Random(2000 + seed)
+    den = _by_denotation(mods)
+    by_kind = {k: [] for k in NAMED_KINDS}
+    for n in _all_names(mods):
+        k = _kind_of(n, T)
+        if k in by_kind and _usable_tail(n, T):
+            by_kind[k].append(n)
+    out = []
+    for kind in NAMED_KINDS:
+        names = sorted(by_kind[kind])
+        if kind in NAMED_SAMPLED:
+            k = NAMED_SAMPLED[kind][0 if tier == "quick" else 1]
+            if k is not None:
+                micro = [n for n in names if n[0] in MICRO and kind.startswith("psym")]
+                rest = [n for n in names if n not in micro]
+                names = sorted((micro if tier == "thorough" else rnd.sample(micro, min(k, len(micro)))) + rnd.sample(rest, min(k, len(rest))))
+        items = []
+        for t in names:
+            coll = sorted({d for k2 in COLLIDER_KINDS for d in py_colliders_cached(k2).get(t, ())})
+            extra = [n for n in den.get(expected(t, T), ()) if n != t]
+            items.append((t, coll, extra))
+        out.append(("named-" + kind, items, NAMED_HISTS_GENERATED if (tier == "thorough" and kind in NAMED_GENERATED) else NAMED_HISTS[tier]))
+    _NAMED[key] = out
+    return out
+
+
+def run_joint(ctx, items, flag):
+    """all rows of the case added to ONE registry (each with a scale of its own), then the strings of every row and the units
+    add_symbols(ns, registry) hands out for them: the documented unit on both routes; for a row named like a symbol form:
+    one unit for all spellings on both routes.  Rows whose documented denotation is already taken by an earlier row of the
+    case are left out (two user rows for one prefixed unit collide with each other: outside)."""
+    unyt = ctx.mods["unyt"]
+    Unit = unyt.Unit
+    T = tables()
+    udims = unyt.dimensions.time
+    fl = "prefixable" if flag else "non-prefixable"
+    cfg = _Cfg(ctx, "joint")
+    reg = cfg.reg
+    rows, dens = [], set()
+    for t, colliders, extra in items:
+        d = _expected(t, T)
+        if d in dens:
+            continue
+        dens.add(d)
+        st = ctx.real(f"u:{t}", pos=True)
+        if not ctx.symbolic:
+            st = float(st)
+        reg.add(t, st, udims, prefixable=flag)
+        rows.append((t, colliders, extra, st))
+    redefined = {_expected(t, T) for t, _, _, _ in rows if _symbol_form(t, T)}
+    ns = {}
+    ctx.mods["US"].add_symbols(ns, reg)
+    us = vars(unyt.unit_symbols)
+    for t, colliders, extra, st in rows:
+        strings = _strings_for(T, t, colliders, "core", {})
+        strings += [n for n in extra if n not in strings]
+        for name in strings:
+            rd = ext_reading(name, T, t, flag, True)
+            if rd is None or rd[0] != "doc" or rd[1] in redefined:
+                continue
+            E = cfg.doc_value(name, rd[1])
+            r = call(Unit, name, registry=reg)
+            ok = r[0] == "ok" and _unit_ok(ctx, r[1], E, T, rd[1])
+            ctx.require(f"joint/{fl}/documented name keeps its reading/{_label_of(name, T)}", ok, string=name, row=t,
+                        got=str(r[1])[:60] if r[0] == "ok" else type(r[1]).__name__)
+            if name in us:
+                n = ns.get(name)
+                ok = n is not None and And(_unit_ok(ctx, n, E, T, rd[1]), n.registry is reg)
+                ctx.require(f"joint/{fl}/registry-namespace/{_label_of(name, T)}", ok, string=name, row=t, got=str(n)[:60])
+        if _symbol_form(t, T):
+            _consistency(ctx, cfg, reg, t, st, flag, strings, "joint", udims, ns=ns)
+
+
+def make_named_case(family, idx, items, hists):
+    """items: [(row name t, documented spellings prefix ++ t, other spellings of the unit t denotes)]; every history x both
+    prefixable flags in one path"""
+    def h(ctx):
+        for t, colliders, extra in items:
+            for hist in hists:
+                for flag in (True, False):
+                    run_history(ctx, hist, t, flag, colliders, "core", {}, extra=extra)
+        for flag in (True, False):
+            run_joint(ctx, items, flag)
+        ctx.observe("rows", len(items))
+    return Case(f"C14/custom/{family}/{idx:03d}", h, bounds=f"{len(items)} row names x {len(hists)} histories x 2 flags, 145+2 symbolic scales",
+                budget_s=600, weight=4)
+
+
+# ---- edits of a TABLE symbol after its spellings were used ---------------------------------------------------------------
+# "Every spelling denotes the same unit as its canonical spelling scaled by exactly the prefix" is a statement about the
+# registry as it is NOW: when the canonical symbol of a custom registry is modified, re-added or removed, every spelling of
+# it - alias, word form, title-case variant, prefixed form - must follow, whatever was looked up before the edit (the
+# registry answers repeated unit strings from a cache keyed by the string the caller typed).  Discrete axes: the table
+# symbol, the history of registry calls (each starts by resolving every spelling once), the registry kind (symbolic
+# table / plain UnitRegistry()), the route (string, add_symbols namespace).  Continuous: 145 table scales, the new scale(s).
+
+EDIT_HISTORIES = ("modify", "readd", "remove", "remove-add", "flip", "copy-modify", "modify-twice", "plain-modify", "plain-readd")
+EDIT_HISTS = {"quick": ("modify", "readd", "remove", "flip", "copy-modify", "plain-modify"), "thorough": EDIT_HISTORIES}
+EDIT_QUICK_PREFIX_VALUES = (1.0, 1e3, 1e-3, 1e1, 1e-6)
+
+
+def _edit_names(mods, sym, tier):
+    """the documented identifier spellings of sym: every alias / title-case variant; prefixed forms (symbol, short alias,
+    word, title-case word) for k, m, da and the three micro spellings (quick) resp. all prefixes (thorough)"""
+    den = _by_denotation(mods)
+    out = []
+    for (pv, s2), names in den.items():
+        if s2 == sym and (tier == "thorough" or pv in EDIT_QUICK_PREFIX_VALUES):
+            out += names
+    return out
+
+
+def run_edit(ctx, hist, sym, names, namespace=False):
+    unyt = ctx.mods["unyt"]
+    Unit = unyt.Unit
+    T = tables()
+    PE = unyt.exceptions.UnitParseError
+    _, dims, off, _, flag0 = T.rows[sym]
+    flag0 = bool(flag0)
+    plain = hist.startswith("plain")
+    cfg = _Cfg(ctx, "edit:" + hist, plain=plain)
+    reg = cfg.reg
+    old = float(T.rows[sym][0]) if plain else cfg.S[sym]
+
+    def fresh(tag):
+        v = ctx.real(f"{tag}:{sym}", pos=True)
+        return v if ctx.symbolic else float(v)
+
+    def add(r, scale, prefixable):
+        kw = {"offset": float(off)} if float(off) != 0.0 else {}
+        r.add(sym, scale, dims, prefixable=prefixable, **kw)
+
+    def other_reading(name):
+        """a reading of the string, or of a symbol form prefix ++ sym with the same prefix value, that does not go through sym"""
+        pv = _expected(name, T)[0]
+        forms = [name] + [p + sym for p in PREFIX_SYMS if PREFIX[p] == pv and pv != 1.0]
+        return any(r[2] != sym for f in forms for r in readings(f, T))
+
+    def check(r, scale, step, prefixable=flag0, present=True, ns=None):
+        """every spelling against the registry as it is now: prefix * scale; rejected when the symbol is gone, and the
+        prefixed spellings when the row is not prefixable"""
+        for name in names:
+            pv = _expected(name, T)[0]
+            res = call(Unit, name, registry=r)
+            got = str(res[1])[:60] if res[0] == "ok" else type(res[1]).__name__
+            lab = _label_of(name, T)
+            if not present or (pv != 1.0 and not prefixable):
+                if other_reading(name):
+                    continue
+                what = "spelling of a removed table symbol rejected" if not present else "prefixed spelling of a symbol re-added as non-prefixable rejected"
+                ctx.require(f"{hist}:{step}/{what}/{lab}", res[0] == "raise" and isinstance(res[1], PE), string=name, symbol=sym, got=got)
+                continue
+            E = oracle_var(ctx, f"e:{hist}:{step}:{name}", scale * pv)
+            # the unit must also belong to the registry it was asked from (a unit object shared with another registry
+            # follows that registry's later edits)
+            ok = res[0] == "ok" and And(_unit_ok(ctx, res[1], E, T, (pv, sym)), res[1].registry is r)
+            ctx.require(f"{hist}:{step}/spelling follows its canonical symbol/{lab}", ok, string=name, symbol=sym, prefix=pv, got=got)
+            if ns is not None and name in vars(unyt.unit_symbols):
+                n = ns.get(name)
+                ok = n is not None and And(_unit_ok(ctx, n, E, T, (pv, sym)), n.registry is r)
+                ctx.require(f"{hist}:{step}/registry-namespace follows the canonical symbol/{lab}", ok, string=name, symbol=sym, got=str(n)[:60])
+        if prefixable and not flag0 and present:
+            # a non-prefixable table symbol re-added as prefixable: prefix ++ symbol is the user's prefixed unit unless the
+            # string is a documented spelling of something else
+            for p in CORE_PREFIXES:
+                name = p + sym
+                if not name.isidentifier():
+                    continue
+                res = call(Unit, name, registry=r)
+                got = str(res[1])[:60] if res[0] == "ok" else type(res[1]).__name__
+                d = _expected(name, T)
+                if d is not None:
+                    if d[1] == sym:
+                        continue
+                    ok = res[0] == "ok" and _unit_ok(ctx, res[1], cfg.doc_value(name, d), T, d)
+                    ctx.require(f"{hist}:{step}/documented name keeps its reading/{_label_of(name, T)}", ok, string=name, symbol=sym, got=got)
+                else:
+                    ok = res[0] == "ok" and And(close(res[1].base_value, scale * PREFIX[p]), dimvec(res[1].dimensions) == dimvec(dims))
+                    ctx.require(f"{hist}:{step}/prefix x symbol re-added as prefixable", ok, string=name, symbol=sym, got=got)
+
+    def namespace_of(r):
+        if not namespace:
+            return None
+        ns = {}
+        ctx.mods["US"].add_symbols(ns, r)
+        return ns
+
+    check(reg, old, "used")                     # every spelling is resolved once: the history all variants share
+    s1 = fresh("n1")
+    if hist in ("modify", "plain-modify"):
+        reg.modify(sym, s1)
+        check(reg, s1, "modified", ns=namespace_of(reg))
+    elif hist in ("readd", "plain-readd"):
+        add(reg, s1, flag0)
+        check(reg, s1, "re-added", ns=namespace_of(reg))
+    elif hist == "remove":
+        reg.remove(sym)
+        check(reg, None, "removed", present=False)
+    elif hist == "remove-add":
+        reg.remove(sym)
+        add(reg, s1, flag0)
+        check(reg, s1, "re-added")
+    elif hist == "flip":
+        add(reg, s1, not flag0)
+        check(reg, s1, "flipped", prefixable=not flag0)
+        add(reg, s1, flag0)
+        check(reg, s1, "flipped back")
+    elif hist == "copy-modify":
+        r2 = copy.copy(reg)
+        reg.modify(sym, s1)
+        check(r2, old, "copy after the original was modified")
+        check(reg, s1, "original modified")
+        s2 = fresh("n2")
+        r2.modify(sym, s2)
+        check(r2, s2, "copy modified")
+        check(reg, s1, "original after the copy was modified")
+    elif hist == "modify-twice":
+        reg.modify(sym, s1)
+        check(reg, s1, "modified")
+        s2 = fresh("n2")
+        reg.modify(sym, s2)
+        check(reg, s2, "modified again")
+    else:
+        raise ValueError(hist)
+
+
+def edit_symbols(T):
+    """table symbols whose scale is a symbol in sym_registry (positive scale, not the number one)"""
+    return [s for s, r in T.rows.items() if r[0] > 0 and s != "dimensionless"]
+
+
+def _edit_id(sym):
+    return sym if sym.isidentifier() else "sym-" + "-".join(f"{ord(c):x}" for c in sym)
+
+
+def make_edit_case(sym, names, hists):
+    def h(ctx):
+        for hist in hists:
+            run_edit(ctx, hist, sym, names, namespace=(hist == "modify"))
+        ctx.observe("spellings", len(names))
+    return Case(f"C14/edit/{_edit_id(sym)}", h, bounds=f"{len(names)} spellings x {len(hists)} histories, 145+2 symbolic scales", budget_s=600, weight=4)
+
+
 _COLL = {}
 
 
@@ -718,6 +1112,18 @@ def cases(tier, mods):
             out += [make_custom_case(family, i, [it], hists, True, fh) for i, it in enumerate(items)]
         else:
             out += [make_custom_case(family, i // 6, items[i:i + 6], hists, False) for i in range(0, len(items), 6)]
+    for sym in edit_symbols(T):
+        names = _edit_names(mods, sym, tier)
+        for n in names + [p + sym for p in CORE_PREFIXES]:
+            _expected(n, T), _label_of(n, T)
+        if names:
+            out.append(make_edit_case(sym, names, EDIT_HISTS[tier]))
+    for family, items, hists in named_layout(tier, mods):
+        for t, colliders, extra in items:
+            for n in _strings_for(T, t, colliders, "core", nbs) + list(extra):
+                _expected(n, T), _label_of(n, T), _symbol_form(n, T)
+        step = 6 if tier == "quick" else (8 if family[len("named-"):] in NAMED_GENERATED else 4)
+        out += [make_named_case(family, i // step, items[i:i + step], hists) for i in range(0, len(items), step)]
     return out
 
 
@@ -732,9 +1138,13 @@ def coverage_extra(results, tier):
         d["ground"] += r["stats"]["ground_true"]
     multi, exc = hint_lists()
     tails = {f: [t for t, _ in items] for f, items, _, _ in custom_layout(tier)}
+    named = {f: [t for t, _, _ in items] for k, v in _NAMED.items() if k == ("layout", tier) for f, items, _ in v}
     return dict(parts=by, multi_reading_strings=multi, readable_prefix_plus_nonprefixable_strings=exc,
                 registry_configuration_tails=tails, registry_histories=list(HISTORIES),
+                rows_named_like_a_documented_spelling={f: (v if len(v) <= 200 else dict(count=len(v), first=v[:20])) for f, v in named.items()},
+                edited_table_symbols=edit_symbols(tables()), edit_histories=list(EDIT_HISTS[tier]),
                 note=("names/*: solver-decided (symbolic scales); strings/complete*: solver-decided (z3 sequence/regex theory, all strings); "
                       "strings/reject*: enumerated concrete facts (exception class), only the exception list is solver-derived; "
-                      "custom/*: solver-decided (symbolic table scales and scale of the added row), rejections are exception classes"))
+                      "custom/*: solver-decided (symbolic table scales and scale of the added row), rejections are exception classes; "
+                      "edit/*: solver-decided (symbolic old and new scales), rejections and registry identity are ground facts"))
 
